@@ -270,9 +270,67 @@ func checkFailClosed(o *kernel.Outcome, prop string, site string, step int, desc
 }
 
 func RunC10(t *testing.T, spec kernel.Spec) *kernel.Outcome {
+	return runFaultSweep(t, spec, "C10", int(spec.Seed%uint64(len(faultFlows)*2)))
+}
+
+// idempotentFlows: target requests that can be sent twice; the sweep sends them once fault-free before the faulted
+// run, so that anything the provider remembered from a successful request (a cache that masks the failing call) is warm.
+var idempotentFlows = map[string]bool{"authorize": true, "authorize-unregistered-uri": true, "authorize-with-hint": true, "client-credentials": true, "jwt-bearer": true,
+	"token-exchange-access": true, "token-exchange-refresh": true, "token-exchange-id": true, "token-exchange-actor": true, "device-authorization": true,
+	"userinfo": true, "introspect": true, "keys": true}
+
+// warmUp gives the provider a successful history before the target request: tokens of another client in JWT form are
+// verified by the provider (userinfo, id_token_hint), keys and discovery are served, a client is looked up. A fault in
+// the target request must fail closed whatever an earlier request left behind.
+func warmUp(w *world.World, b *world.Browser) {
+	nat := w.Store.Clients["native"]
+	old := nat.TokenType
+	nat.TokenType = op.AccessTokenTypeJWT
+	s, err := codeFlow(w, b, flowOpts{client: "native", scopes: []string{oidc.ScopeOpenID, oidc.ScopeEmail}})
+	nat.TokenType = old
+	if err != nil {
+		w.O.Probe("warm-up-flow-failed")
+	} else {
+		if r := bearerGet(w, "/userinfo", s.tokens.AccessToken); r.Status == 200 {
+			w.O.Probe("warm-up-jwt-verified")
+		}
+		startAuthz(w, b, flowOpts{client: "native", extra: url.Values{"id_token_hint": {s.tokens.IDToken}}})
+	}
+	rawGet(w, "/keys")
+	rawGet(w, "/.well-known/openid-configuration")
+}
+
+// checkAnswersOnce is the C09 oracle for a request that met a storage fault: one response, no panic, and no storage
+// call after an error status was written (the handler did not carry on into the grant logic).
+func checkAnswersOnce(o *kernel.Outcome, site string, step int, desc string, r *world.Resp) {
+	ex := r.Ex
+	if ex == nil {
+		return
+	}
+	if ex.Panic != "" {
+		o.Violate("C09", "panic", site, step, "%s: handler panicked: %s", desc, ex.Panic)
+		return
+	}
+	if ex.WriteHeaderCalls > 1 {
+		o.Violate("C09", "double-response", site, step, "%s: %s %s wrote %d response headers", desc, ex.Method, ex.Path, ex.WriteHeaderCalls)
+	}
+	if ex.CallsAtError >= 0 && ex.CallsAtEnd > ex.CallsAtError {
+		o.Violate("C09", "continues-after-error", site, step, "%s: %s %s answered %d and then made %d more storage calls", desc, ex.Method, ex.Path, ex.Status, ex.CallsAtEnd-ex.CallsAtError)
+	}
+}
+
+// runFaultSweep enumerates the storage-call positions of one flow on one router. prop selects the oracle: C10 (fail
+// closed) or C09 (answers once, does not carry on after an error answer).
+func runFaultSweep(t *testing.T, spec kernel.Spec, prop string, idx int) *kernel.Outcome {
 	nf := len(faultFlows)
-	idx := int(spec.Seed % uint64(nf*2))
 	flow := faultFlows[idx%nf]
+	judge := func(o *kernel.Outcome, site string, step int, desc string, r *world.Resp, redirect string, introspection bool) {
+		if prop == "C09" {
+			checkAnswersOnce(o, site, step, desc, r)
+			return
+		}
+		checkFailClosed(o, prop, site, step, desc, r, redirect, introspection)
+	}
 	router := []string{"A", "B"}[idx/nf]
 	if spec.Params["flow"] != "" {
 		for _, f := range faultFlows {
@@ -320,6 +378,11 @@ func RunC10(t *testing.T, spec kernel.Spec) *kernel.Outcome {
 				o.Probe("prepare-failed")
 				applicable = false
 				return
+			}
+			warmUp(w, w.Net.NewBrowser("warm"))
+			if idempotentFlows[flow.name] {
+				target()
+				o.Probe("target-warm-run")
 			}
 			first := w.Net.Len()
 			fired := false
@@ -369,7 +432,7 @@ func RunC10(t *testing.T, spec kernel.Spec) *kernel.Outcome {
 				o.Fault("multi:" + pl.label)
 				desc := fmt.Sprintf("%s router %s: %s", flow.name, router, pl.label)
 				o.Logf("%s -> %d", desc, statusOf(r))
-				checkFailClosed(o, "C10", site+"/"+firedAt, pl.id, desc, r, redirect, flow.name == "introspect")
+				judge(o, site+"/"+firedAt, pl.id, desc, r, redirect, flow.name == "introspect")
 				return
 			}
 			if k == 0 {
@@ -384,7 +447,7 @@ func RunC10(t *testing.T, spec kernel.Spec) *kernel.Outcome {
 			o.Fault(kind)
 			desc := fmt.Sprintf("%s router %s: call %d (%s) answered %s", flow.name, router, k, methodAt(w, r, k), kind)
 			o.Logf("%s -> %d", desc, statusOf(r))
-			checkFailClosed(o, "C10", site+"/"+methodAt(w, r, k), k*3+kindIndex(kind), desc, r, redirect, flow.name == "introspect")
+			judge(o, site+"/"+methodAt(w, r, k), k*3+kindIndex(kind), desc, r, redirect, flow.name == "introspect")
 		})
 		return
 	}
